@@ -56,9 +56,15 @@ _ROOT.propagate = False
 logging.getLogger("asyncio").setLevel(logging.CRITICAL)
 
 
+# The application's logging configuration is part of the environment: the runner switches this
+# on for every fifth case (chosen by a hash of the case, so replays agree), which makes every
+# level-guarded debug statement of the client run - and anything that hides behind one.
+DEBUG_DEFAULT = False
+
+
 def attach_log(log, debug=False):
     _CAPTURE.log = log
-    _ROOT.setLevel(logging.DEBUG if debug else logging.WARNING)
+    _ROOT.setLevel(logging.DEBUG if (debug or DEBUG_DEFAULT) else logging.WARNING)
 
 
 def world(debug_logging=False):
